@@ -390,3 +390,21 @@ Proof.
     cbv beta in H. rewrite Z2N.id in H by lia. now apply N.eqb_eq in H.
   - unfold code_from_i32. rewrite assoc_z_none; [reflexivity|reflexivity|lia].
 Qed.
+
+(* ---------- Status::from_error on error chains; a reset stream ---------- *)
+Theorem reset_stream_spec r : h2_spec_ok r (reset_stream_code r) = true.
+Proof. unfold reset_stream_code, from_error_code. cbn. apply h2_table_spec. Qed.
+
+Theorem from_error_h2_spec r rest : h2_spec_ok r (from_error_code (EH2 (Some r) :: rest)) = true.
+Proof. cbn. apply h2_table_spec. Qed.
+
+(* wrappers that tonic does not know do not change the classification *)
+Theorem from_error_skips_unknown_wrappers l :
+  from_error_code (EOther :: l) =
+  match find_status_in_chain l with Some c => c | None => Code_Unknown end.
+Proof. reflexivity. Qed.
+
+Theorem from_error_connect l : from_error_code (EConnect :: l) = Code_Unavailable.
+Proof. reflexivity. Qed.
+Theorem from_error_timeout l : from_error_code (ETimeout :: l) = Code_Cancelled.
+Proof. reflexivity. Qed.
